@@ -50,7 +50,7 @@ class C10Check(Check):
 
 reg(C10Check(
     "C10", "c10",
-    coq_targets=["CTree/CTreeConcProofs.vo", "CTree/CTreeConcLin.vo", "CTree/CTreeConcAbs.vo", "CTree/C10Check.vo", "Props/C10.vo"],
+    coq_targets=["CTree/CTreeConcProofs.vo", "CTree/CTreeConcLin.vo", "CTree/CTreeConcAbs.vo", "CTree/CTreeConcDel.vo", "CTree/CTreeConcGet.vo", "CTree/C10Check.vo", "Props/C10.vo"],
     assumptions=[
         "values stored in the tree are non-nil",
         "visitor / condition / delete callbacks do not re-enter the tree (as ctree documents for VisitFunc)",
@@ -60,5 +60,5 @@ reg(C10Check(
     ],
     modelled=["ctree/tree.go locking protocol: Add (terminalAdd, intermediateAdd incl. the RUnlock->Lock exchange at hook add:upgrade, slowAdd with its re-check), Get + Value (GetLeafValue), Query/Walk (queryInternal/enumerateChildren), Delete (DeleteConditional with the always-true condition: root write lock, then lockedDelete/internalDelete with the write lock of every visited node), Leaf.Value / Leaf.Update through retained handles; not modelled: WalkSorted, WalkDeleted and DeleteConditional with a real condition (same locking as Walk / Delete), Children, IsBranch, String"],
 ),
-    level_text="Theorems in coq/Props/C10.v are stated over a labelled transition system of the ctree locking protocol (heap of nodes with RWMutex state, one thread per API call, one step per lock operation or guarded critical section) for all programs and all interleavings: lock coupling, strictly increasing lock order, deadlock freedom, a returned call holds no lock, absence of data races (unconditional for the current Delete, which locks every node it visits; the pre-3480f62 variant is kept as CDeleteUnlocked with a refutation witness), exclusivity of Delete, every reachable heap is a tree, the effect of every single step on the abstraction 'value stored at a path' (Add's write = upd, Delete only removes). For programs of Add / GetLeafValue / Query / handle reads, proved over the LTS: linearizability of Add and GetLeafValue by forward simulation to the flat prefix-free map of C09 (sequential witness with the calls' answers, each returned call exactly once, real-time order), quiescent serializability (the content is the sequential application of distinct Add calls incl. every successful one), query stability in both directions, the re-check after the reader->writer exchange and survival of all concurrent adds. The LTS is tied to ctree/tree.go by forced schedules (workers parked at add:upgrade, in Query visitors and in a paused Leaf.Update; thread statuses and TryLock probes of every node after every step must be producible by the LTS); the implementation's histories (forced and free-running with 2..16 goroutines, stress runs of every exported method) are judged in Coq by the verified linearizability checker against the C09 flat specification, a weak query specification and lock-discipline rules.",
-    level_note="NOT proved over the LTS, only checked on the implementation's histories by the verified checker: linearizability / quiescent serializability / query stability in programs that contain Delete (DeleteConditional, WalkDeleted) or Leaf.Update through a handle: for Delete it is proved that its critical sections are exclusive, race-free and only remove, and that whatever is stored was written by an Add, but not that the removed set and the returned paths are exactly the specification's. Go memory-model races are only exhibited by the race detector (thorough tier).")
+    level_text="Theorems in coq/Props/C10.v are stated over a labelled transition system of the ctree locking protocol (heap of nodes with RWMutex state, one thread per API call, one step per lock operation or guarded critical section) for all programs and all interleavings: lock coupling, strictly increasing lock order, deadlock freedom, a returned call holds no lock, absence of data races (unconditional for the current Delete, which locks every node it visits; the pre-3480f62 variant is kept as CDeleteUnlocked with a refutation witness), exclusivity of Delete, every reachable heap is a tree, the effect of every single step on the abstraction 'value stored at a path' (Add's write = upd, Delete only removes). For programs of Add / GetLeafValue / Query / Walk / Leaf.Value / Delete (everything except Leaf.Update through a handle), proved over the LTS (coq/CTree/CTreeConcDel.v): a whole Delete -- from taking the root lock to its last critical section, interleaved with any steps of other threads -- removes exactly the stored paths its query selects, keeps every other path with its value and returns exactly the removed paths (C10_delete_refines_spec); linearizability of Add and Delete by forward simulation to the flat prefix-free map of C09 (sequential witness with the calls' answers, Delete linearized at its last critical section, each returned call exactly once, real-time order) and quiescent serializability: when all calls have returned the content is the sequential execution of the Add and Delete calls in linearization order (C10_linearizable_add_delete, C10_quiescent_serializable); pruning (every reachable branch has a stored leaf below it whenever no Delete is at work); linearizability of ALL point operations Add / GetLeafValue / Delete (coq/CTree/CTreeConcGet.v, C10_linearizable_point_ops: GetLeafValue = Get + Value is linearized at a miss, at its Value read, or -- when a Delete unlinks its node in between -- just before that Delete, a helping argument); Query / Walk: whatever is reported is stored at the moment of the report, a matching leaf stored during the whole call is reported, nothing is reported twice (C10_query_stability_with_delete). For programs without Delete in addition: the re-check after the reader->writer exchange and survival of all concurrent adds. The LTS is tied to ctree/tree.go by forced schedules (workers parked at add:upgrade, in Query visitors and in a paused Leaf.Update; thread statuses and TryLock probes of every node after every step must be producible by the LTS); the implementation's histories (forced and free-running with 2..16 goroutines, stress runs of every exported method) are judged in Coq by the verified linearizability checker against the C09 flat specification, a weak query specification and lock-discipline rules.",
+    level_note="NOT proved over the LTS, only checked on the implementation's histories by the verified checker: (a) programs with Leaf.Update through a handle: the LTS has it as an update of an arbitrary node id (no acquisition of the handle), for which the flat specification has no counterpart; proved for them: race freedom, exclusion, the effect of one update on the abstraction, reported-once; (b) DeleteConditional with a condition that refuses and WalkDeleted (modelled as Delete with the always-true condition). Go memory-model races are only exhibited by the race detector (thorough tier).")
